@@ -590,7 +590,11 @@ def run_shard(shard):
             p = plan_run(culprit)
             rec = run_single_image(p.image, p.name, p.fast_load, p.get_code, True, kind=p.kind)
             c2 = _compact(p, rec)
-            if c2.get("v") is None:
+            if c2.get("v") is None and r.status == "signal" and int(r.signal or 0) == int(signal.SIGXCPU):
+                # the 4 s per-run CPU guard of the batch ended it, but alone the run stays within the full budget:
+                # the guard only steers cost, this is neither a violation nor an anomaly
+                _probe(agg, "batch CPU guard tripped but run is within its CPU budget")
+            elif c2.get("v") is None:
                 c2 = _sequence_verdict(agg, batch, culprit, c2, {"batch_status": r.status})
             account(agg, c2, p)
             pending = rest[1:] + pending
